@@ -251,7 +251,59 @@ for name, (make, check) in SCENARIOS.items():
     if len(samples) < 2:
         samples.append({"scenario": name, "schedules_so_far": evaluations})
 
-print(json.dumps({"bound": "7 scenarios (five with 2 publishers + 1 subscriber, two with 2 overlapping subscribers on a pre-filled channel) x schedules at line granularity of in_memory.py (incl. the defaultdict factory), preemption bound %d, <= %d schedules per scenario, subscriber drains twice + final drain" % (3 if thorough else 2, 6000 if thorough else 600),
+
+
+def callback_subscription_closed_at_every_point():
+    """a callback subscription (the transport's own runner thread) over a pre-filled channel, closed - as if by another thread that
+    runs to completion - at the k-th line the runner executes in in_memory.py, for every k: each message is either handed to the
+    callback or still queued afterwards, never lost, never duplicated"""
+    global evaluations
+    published = ["m1", "m2", "m3"]
+    k = 0
+    while True:
+        k += 1
+        t = InMemorySemantivaTransport()
+        for label in published:
+            t.publish("x.1", data=label, context=ContextType({}), metadata={"ch": "x.1"})
+        delivered, state = [], {"n": 0, "closed": False}
+
+        def tracer(frame, event, arg):
+            if not frame.f_code.co_filename.endswith(TARGET):
+                return None
+
+            def local(fr, ev, a):
+                if ev == "line" and not state["closed"]:
+                    state["n"] += 1
+                    if state["n"] == k:
+                        sub_ = fr.f_locals.get("sub") or fr.f_locals.get("self")
+                        if sub_ is not None and hasattr(sub_, "close") and hasattr(sub_, "_pattern"):
+                            sub_.close()
+                            state["closed"] = True
+                return local
+            return local
+        threading.settrace(tracer)
+        try:
+            before = set(threading.enumerate())
+            t.subscribe("x.*", callback=lambda m: delivered.append(m.data))
+        finally:
+            threading.settrace(None)
+        for th in set(threading.enumerate()) - before:
+            th.join(timeout=5)
+        rest = [m.data for m in t.subscribe("x.*")]
+        evaluations += 1
+        distinct.add(("callback-subscription-closed-at-line", k))
+        allm = delivered + rest
+        if sorted(allm) != sorted(published):
+            lost = [m for m in published if m not in allm]
+            failures.append({"class": "message-lost" if lost else "message-duplicated", "scenario": "callback-subscription-closed-at-every-point", "closed_at_line_event": k,
+                             "delivered_to_callback": delivered, "still_queued": rest})
+            break
+        if not state["closed"] or k > 400:
+            break                      # the runner finished before reaching its k-th line: every close point has been tried
+
+
+callback_subscription_closed_at_every_point()
+print(json.dumps({"bound": "7 scenarios (five with 2 publishers + 1 subscriber, two with 2 overlapping subscribers on a pre-filled channel) x schedules at line granularity of in_memory.py (incl. the defaultdict factory), preemption bound %d, <= %d schedules per scenario, subscriber drains twice + final drain; a callback subscription over a pre-filled channel closed at every line event of its runner thread" % (3 if thorough else 2, 6000 if thorough else 600),
                   "evaluations": evaluations, "distinct_nontrivial": len(distinct),
                   "rule": "distinct = (scenario, schedule as the sequence of thread choices at traced lines)",
                   "failures": failures[:20], "samples": samples}, default=str))
